@@ -160,6 +160,7 @@ static int hist_core(const case_t *c, int emit)
     size_t heap_start = heap_bytes();
     int tasks_start = count_tasks();
     long est_bytes = 0, work_allocs = 0;
+    ev_t *wev_keep = NULL; size_t nwev_keep = 0;
 
     for (int rep = 0; rep < reps && !stop; ++rep) {
         const char *p = ops;
@@ -221,9 +222,9 @@ static int hist_core(const case_t *c, int emit)
                 GSTRF(&H.opt, &H.AC, H.perm_r, &H.L, &H.U, &H.Gstat, &info);
                 mon_disable();
                 if (lwork > 0) {
-                    ev_t *wev = NULL; size_t nwev = mon_collect(&wev);
-                    work_allocs += mon_check_work(wev, nwev, work, lwork, "C14");
-                    free(wev);
+                    free(wev_keep); wev_keep = NULL;
+                    nwev_keep = mon_collect(&wev_keep);
+                    work_allocs += mon_check_work(wev_keep, nwev_keep, work, lwork, "C14");
                 }
                 StatFree(&H.Gstat);
                 il += snprintf(infos + il, sizeof infos - il, "%s%c%ld", il ? "," : "", op, (long)info);
@@ -246,7 +247,7 @@ static int hist_core(const case_t *c, int emit)
                 if (info > n) {
                     /* memory ran out: legitimate only with a too small workspace or a failing allocator */
                     jo_int("oom_info", info);
-                    if (!(mem && cdbl(c, "lwfrac", 1.5) < 1.0) && !cint(c, "lwbytes", 0) && failat <= 0)
+                    if (!(mem && cdbl(c, "lwfrac", 1.5) < 1.0) && !cint(c, "lwbytes", 0) && failat <= 0 && !cint(c, "oomok", 0))
                         jo_fail("C14|unexpected-oom", "factorization returned info = %ld > n although memory was sufficient", (long)info);
                     pxgstrf_finalize(&H.opt, &H.AC); H.have_ac = 0; H.have_opt = 0; H.have_lu = 0;
                     stop = 1; break;
@@ -314,6 +315,7 @@ static int hist_core(const case_t *c, int emit)
                                 jo_fail("C14|storage-overlap", "%s (%ld bytes used) and %s (%ld bytes used) of the returned factors share memory inside the caller's workspace", anm[q], (long)lens[q], anm[q2], (long)lens[q2]); bad = 1; break; }
                         }
                     }
+                    if (!bad && wev_keep) mon_check_work_vs(wev_keep, nwev_keep, ptrs, lens, anm, (int)(sizeof ptrs / sizeof ptrs[0]), "C14");
                     ++inbuf_checked;
                 }
                 uint64_t dg = lu_digest(&H, FNV0);
@@ -361,7 +363,8 @@ static int hist_core(const case_t *c, int emit)
                 } else {
                     superlumt_options_t o2; memset(&o2, 0, sizeof o2);
                     o2.nprocs = nprocs; o2.fact = EQUILIBRATE; o2.trans = NOTRANS; o2.refact = NO; o2.panel_size = w; o2.relax = relax;
-                    o2.diag_pivot_thresh = H.u; o2.usepr = NO; o2.SymmetricMode = NO; o2.PrintStat = NO; o2.perm_c = pc2; o2.perm_r = pr2;
+                    o2.diag_pivot_thresh = H.u; o2.usepr = NO; o2.SymmetricMode = (arg == 5) ? YES : NO; o2.PrintStat = NO; o2.perm_c = pc2; o2.perm_r = pr2;
+                    if (arg == 5) o2.diag_pivot_thresh = 0.0;      /* symmetric mode as EXAMPLE/p?linsolx2.c uses it */
                     if (arg == 2) o2.lwork = -1;      /* workspace query through the driver */
                     o2.etree = intMalloc(n + 1); o2.colcnt_h = intMalloc(n + 1); o2.part_super_h = intMalloc(n + 1);
                     real_t *R2 = xmalloc((n + 1) * sizeof(real_t)), *C2 = xmalloc((n + 1) * sizeof(real_t)), fe[2], be[2], rpg2, rc2;
@@ -399,6 +402,7 @@ static int hist_core(const case_t *c, int emit)
         }
     }
     destroy_factors(&H);
+    free(wev_keep);
     free(H.work); H.work = NULL;
     long nfailed_allocs = sluv_alloc_failed();
     sluv_alloc_fail_from(0);
